@@ -689,3 +689,17 @@ where
         Ok(())
     }
 }
+
+/// Verification hooks (compiled only with `--cfg ark_bulletproofs_verif`).
+#[cfg(ark_bulletproofs_verif)]
+impl<G: AffineRepr, T: BorrowMut<Transcript>> Verifier<G, T> {
+    /// The scalar vector of the combined multiscalar check, exactly as `verify` computes it.
+    pub fn verif_verification_scalars(
+        self,
+        proof: &R1CSProof<G>,
+        bp_gens: &BulletproofGens<G>,
+    ) -> Result<Vec<G::ScalarField>, R1CSError> {
+        self.verification_scalars(proof, bp_gens)
+            .map(|(_verifier, scalars)| scalars)
+    }
+}
